@@ -402,7 +402,7 @@ enum cc_stat cc_array_sized_get_last(CC_ArraySized *ar, uint8_t *out)
 */
 enum cc_stat cc_array_sized_peek(CC_ArraySized* ar, size_t index, uint8_t** out)
 {
-    if (index > ar->size) {
+    if (index >= ar->size) {
         return CC_ERR_OUT_OF_RANGE;
     }
     *out = BUF_ADDR(ar, index);
